@@ -402,7 +402,7 @@ func (r *Run) evalIndex(env *SpecEnv, x EIndex) SV {
 	switch bt := types.Unalias(base.T).Underlying().(type) {
 	case *types.Slice:
 		A := r.heapGet(env.cur, r.eng.heapKeyArr(bt.Elem()))
-		return SV{t: sel(sel(A, app("Int", "sl_arr", base.t)), app("Int", "+", app("Int", "sl_off", base.t), idx.t)), T: bt.Elem()}
+		return SV{t: sel(sel(A, app("Int", "sl_arr", base.t)), app("Int", "sl_ix", app("Int", "sl_off", base.t), idx.t)), T: bt.Elem()}
 	case *types.Map:
 		if idx.t.S == "nil" {
 			idx = SV{t: r.eng.u.zeroOf(bt.Key()), T: bt.Key()}
